@@ -371,3 +371,144 @@ Proof.
       apply (err_from_json_ok_iff rg base) in He. destruct He as [e ->].
       destruct (get "id" kvs) as [[]|]; try discriminate; eexists; reflexivity.
 Qed.
+
+(* ---------- C05: one trip over the wire ---------- *)
+Lemma req_roundtrip r :
+  req_from_json (req_to_json r) = Ok (norm_req r) /\ req_to_json (norm_req r) = req_to_json r.
+Proof.
+  destruct r as [m p i]. unfold norm_req, norm_params, req_to_json; cbn [r_method r_params r_id].
+  destruct i as [[z|s]|]; destruct p as [|[|x l]|[|kv d]]; cbn; split; reflexivity.
+Qed.
+
+Lemma err_roundtrip rg base e :
+  err_from_json rg base (err_to_json e) = Ok (reclass_err rg base e)
+  /\ err_to_json (reclass_err rg base e) = err_to_json e.
+Proof.
+  destruct e as [c m d cl]. unfold err_to_json, reclass_err, mk_error; cbn.
+  destruct d; cbn; split; reflexivity.
+Qed.
+
+Lemma resp_roundtrip rg base r :
+  resp_from_json rg base (resp_to_json r) = Ok (reclass rg base r)
+  /\ resp_to_json (reclass rg base r) = resp_to_json r.
+Proof.
+  destruct r as [i v|i e].
+  - destruct i as [[z|s]|]; cbn; split; reflexivity.
+  - destruct (err_roundtrip rg base e) as [H1 H2].
+    unfold resp_to_json, resp_from_json, reclass.
+    assert (G : forall x, get "jsonrpc" [("jsonrpc", JStr "2.0"); ("id", x); ("error", err_to_json e)] = Some (JStr "2.0")
+                /\ get "id" [("jsonrpc", JStr "2.0"); ("id", x); ("error", err_to_json e)] = Some x
+                /\ get "error" [("jsonrpc", JStr "2.0"); ("id", x); ("error", err_to_json e)] = Some (err_to_json e)
+                /\ get "result" [("jsonrpc", JStr "2.0"); ("id", x); ("error", err_to_json e)] = None)
+      by (intros; repeat split).
+    destruct (G (id_json i)) as [G1 [G2 [G3 G4]]]. rewrite G1, G2, G3, G4, H2.
+    change (json_eqb (JStr "2.0") (JStr "2.0")) with true. cbv iota. unfold negb.
+    unfold bind. rewrite H1.
+    destruct i as [[z|s]|]; cbn; split; reflexivity.
+Qed.
+
+Lemma mapM_map_ok {A B C} (g : A -> B) (f : B -> res C) (h : A -> C) l :
+  (forall a, f (g a) = Ok (h a)) -> mapM f (map g l) = Ok (map h l).
+Proof. intros H. induction l as [|a l IH]; cbn; auto. unfold bind. rewrite H, IH. reflexivity. Qed.
+
+Lemma norm_req_id r : r_id (norm_req r) = r_id r.
+Proof. reflexivity. Qed.
+
+Lemma breq_roundtrip b :
+  binv r_id b -> b_items b <> [] ->
+  breq_from_json (breq_to_json b) = Ok {| b_items := map norm_req (b_items b); b_ids := b_ids b |}
+  /\ breq_to_json {| b_items := map norm_req (b_items b); b_ids := b_ids b |} = breq_to_json b.
+Proof.
+  intros [Hi Hn] Hne. unfold breq_to_json, breq_from_json. cbn [b_items].
+  destruct (b_items b) as [|r0 rs] eqn:E; [congruence|]. clear Hne.
+  split.
+  - change (map req_to_json (r0 :: rs)) with (req_to_json r0 :: map req_to_json rs).
+    cbv iota. change (req_to_json r0 :: map req_to_json rs) with (map req_to_json (r0 :: rs)).
+    rewrite (mapM_map_ok req_to_json req_from_json norm_req); [|intros; apply req_roundtrip].
+    unfold bind, breq_extend, batch_extend, bind. cbn [b_ids b_items batch_empty].
+    rewrite map_map. cbn [norm_req r_id].
+    replace (map (fun x : request => r_id x) (r0 :: rs)) with (map r_id (r0 :: rs)) by reflexivity.
+    assert (Hnd : NoDup (cat_some (map r_id (r0 :: rs)))) by (rewrite <- Hi; exact Hn).
+    destruct (add_ids_complete (map r_id (r0 :: rs)) [] Hnd) as [s Hs].
+    rewrite Hs. pose proof (add_ids_ok _ _ _ Hs) as Es. cbn [app] in Es. subst s. rewrite <- Hi. reflexivity.
+  - f_equal. rewrite map_map. apply map_ext. intros; apply req_roundtrip.
+Qed.
+
+Lemma bresp_roundtrip rg base b :
+  match b with
+  | BError e => bresp_from_json rg base (bresp_to_json b) = Ok (BError (reclass_err rg base e))
+  | BList bl => binv resp_id bl ->
+      bresp_from_json rg base (bresp_to_json b)
+      = Ok (BList {| b_items := map (reclass rg "JsonRpcError") (b_items bl); b_ids := b_ids bl |})
+  end.
+Proof.
+  destruct b as [e|bl].
+  - destruct (err_roundtrip rg base e) as [H1 _].
+    unfold bresp_to_json, resp_to_json, bresp_from_json.
+    change (get "jsonrpc" [("jsonrpc", JStr "2.0"); ("id", id_json None); ("error", err_to_json e)]) with (Some (JStr "2.0")).
+    change (get "id" [("jsonrpc", JStr "2.0"); ("id", id_json None); ("error", err_to_json e)]) with (Some JNull).
+    change (get "error" [("jsonrpc", JStr "2.0"); ("id", id_json None); ("error", err_to_json e)]) with (Some (err_to_json e)).
+    change (json_eqb (JStr "2.0") (JStr "2.0")) with true. cbv iota. unfold negb.
+    unfold bind. rewrite H1. reflexivity.
+  - intros [Hi Hn]. unfold bresp_to_json, bresp_from_json.
+    rewrite (mapM_map_ok resp_to_json (resp_from_json rg "JsonRpcError") (reclass rg "JsonRpcError"));
+      [|intros; apply resp_roundtrip].
+    unfold bind, batch_extend, bind. cbn [b_ids b_items batch_empty].
+    rewrite map_map.
+    assert (Hm : map (fun x => resp_id (reclass rg "JsonRpcError" x)) (b_items bl) = map resp_id (b_items bl))
+      by (apply map_ext; intros []; reflexivity).
+    rewrite Hm.
+    assert (Hnd : NoDup (cat_some (map resp_id (b_items bl)))) by (rewrite <- Hi; exact Hn).
+    destruct (add_ids_complete (map resp_id (b_items bl)) [] Hnd) as [s Hs].
+    rewrite Hs. pose proof (add_ids_ok _ _ _ Hs) as Es. cbn [app] in Es. subst s. rewrite <- Hi. reflexivity.
+Qed.
+
+Lemma bresp_rewire rg base b :
+  match b with
+  | BError e => bresp_to_json (BError (reclass_err rg base e)) = bresp_to_json b
+  | BList bl => bresp_to_json (BList {| b_items := map (reclass rg base) (b_items bl); b_ids := b_ids bl |}) = bresp_to_json b
+  end.
+Proof.
+  destruct b as [e|bl]; cbn.
+  - destruct (err_roundtrip rg base e) as [_ H2]. rewrite H2. reflexivity.
+  - f_equal. rewrite map_map. apply map_ext. intros; apply resp_roundtrip.
+Qed.
+
+(* ---------- C05: the wire form is exact ---------- *)
+Lemma has_In_keys {V} k (kvs : list (string * V)) : has k kvs = true -> In k (map fst kvs).
+Proof.
+  unfold has. induction kvs as [|[k' v] q IH]; cbn; [discriminate|].
+  destruct (String.eqb_spec k k'); [subst; auto|]. intros H; right; apply IH; exact H.
+Qed.
+
+Lemma req_wire r :
+  exists kvs, req_to_json r = JObj kvs
+  /\ get "jsonrpc" kvs = Some (JStr "2.0")
+  /\ get "method" kvs = Some (JStr (r_method r))
+  /\ get "id" kvs = match r_id r with None => None | Some _ => Some (id_json (r_id r)) end
+  /\ get "params" kvs = (if params_truthy (r_params r) then Some (params_json (r_params r)) else None)
+  /\ (forall k, has k kvs = true -> In k ["jsonrpc"; "method"; "id"; "params"]).
+Proof.
+  destruct r as [m p i]. unfold req_to_json; cbn [r_method r_params r_id]. eexists; split; [reflexivity|].
+  destruct i as [[z|s]|]; destruct (params_truthy p); cbn; (repeat split);
+    intros k Hk; apply has_In_keys in Hk; cbn in Hk; cbn; tauto.
+Qed.
+
+Lemma resp_wire r :
+  exists kvs, resp_to_json r = JObj kvs
+  /\ get "jsonrpc" kvs = Some (JStr "2.0")
+  /\ get "id" kvs = Some (id_json (resp_id r))
+  /\ match r with
+     | RResult _ v => get "result" kvs = Some v /\ get "error" kvs = None
+     | RError _ e => get "result" kvs = None /\ get "error" kvs = Some (err_to_json e)
+     end.
+Proof. destruct r; cbn; eexists; repeat split. Qed.
+
+Lemma err_wire e :
+  exists kvs, err_to_json e = JObj kvs
+  /\ get "code" kvs = Some (JInt (e_code e)) /\ get "message" kvs = Some (JStr (e_msg e))
+  /\ get "data" kvs = e_data e.
+Proof. destruct e as [c m [d|] cl]; cbn; eexists; repeat split. Qed.
+
+Lemma err_from_json_class rg base j e : err_from_json rg base j = Ok e -> e_class e = class_of rg base (e_code e).
+Proof. unfold err_from_json; intros H; repeat (dm; inv_res); reflexivity. Qed.
